@@ -332,7 +332,11 @@ def linform(t, angle=True):
             m = _pi_multiple(t.val)
             if m is not None:
                 return LinForm({}, m, 0)
-        return LinForm({t.id: (t, Fraction(1))})      # opaque constant base
+        # opaque constant base: |c| with a sign, so that f(-c) and f(c) share their atoms
+        if t.val < 0:
+            a = const(-t.val)
+            return LinForm({a.id: (a, Fraction(-1))})
+        return LinForm({t.id: (t, Fraction(1))})
     if t is PI:
         return LinForm({}, 1, 0) if angle else LinForm({PI.id: (PI, Fraction(1))})
     if t.op == "add":
@@ -448,6 +452,15 @@ def quot(n, d):
     if n.op == "const" and n.val == 0:
         return ZERO
     return _mk("quot", (n, d))
+
+
+def floordiv(x, m):
+    """floor(x / m) for a positive rational constant m, as a real-valued term (an integer)"""
+    m = to_fraction(m)
+    assert m > 0
+    if x.op == "const":
+        return const(math.floor(x.val / m))
+    return _mk("floordiv", (x,), m)
 
 
 def atan2(y, x):
@@ -569,6 +582,8 @@ def evaluate(roots, env):
                 v = getattr(math, op)(a[0])
             except ValueError as e:
                 raise EvalError(str(e))
+        elif op == "floordiv":
+            v = float(math.floor(a[0] / float(t.val) + 1e-15))
         elif op == "toreal":
             v = float(a[0])
         elif op == "floor":
